@@ -5,6 +5,7 @@ import re
 from mc.core import UnitResult
 
 ID = "C20"
+PARTS = ['atom', 'union', 'v-atom', 'v-union']      # outcome classes every run must produce (guards against a part of the exploration silently not running)
 RULE = ("state = (evaluator body, call): bodies = nested if/elif/else (depth <= 2) whose tests are and/or/not combinations of the primitive conditions of docs/type_evaluation.md "
         "(is_of_type with and without exclude_any=False, is / is not / == / != constants, is_provided / is_positional / is_keyword of a positional-or-keyword and of a keyword-only "
         "parameter, version and platform checks), leaves return a type / show_error / pass; calls = every argument kind for y and k (omitted, positional, keyword, *args, **kwargs, "
